@@ -2,8 +2,8 @@
 from reg._common import COMMON_ASSUME
 
 ENTRY = {
-    'extractors': ['translate_f90.py'],
-    'lean_files': ['Tables/SrcF90Kernels.lean', 'Tables/C05.lean', 'Props/C05.lean', 'Props/C05Rounding.lean', 'Lemmas/TriRoundingTables.lean', 'Props/C05RoundingF90.lean'],
+    'extractors': ['translate_py.py', 'translate_f90.py'],
+    'lean_files': ['Tables/SrcPyTriangle.lean', 'Tables/SrcF90Kernels.lean', 'Tables/C05.lean', 'Props/C05.lean', 'Props/C05Rounding.lean', 'Lemmas/TriRoundingTables.lean', 'Props/C05RoundingF90.lean'],
     'lemma_files': ['Lemmas/RoundingMore.lean', 'Lemmas/Shift.lean', 'Lemmas/Shift2.lean', 'Lemmas/Bridge.lean', 'Lemmas/VS.lean',
                     'Lemmas/Ieee.lean', 'Lemmas/Subdivide.lean', 'Lemmas/Triangle.lean', 'Lemmas/Rounding.lean',
                     'Lemmas/RoundingTables.lean', 'Lemmas/TriRounding.lean',
